@@ -21,6 +21,8 @@ def menu(nums):
     for n in nums:
         evs.append(("app", n, "X"))  # application message whose on_message callback raises
     for n in nums:
+        evs.append(("app", n, "P"))  # counterparty renders MsgSeqNum with a fixed width (000007): a legal FIX int
+    for n in nums:
         evs.append(("hb", n))
         evs.append(("tr", n))
         evs.append(("app", n, "Y"))
@@ -53,7 +55,7 @@ def frame_of(ev, S, T, uid):
     if k == "app":
         extra = [(43, "Y"), (122, "20240101-00:00:00.000")] if ev[2] == "Y" else []
         cid = f"boom{uid}" if ev[2] == "X" else f"id{uid}"
-        return refs.frame("D", n, T, S, [(11, cid), (55, "X")], extra_header=extra)
+        return refs.frame("D", ("%06d" % n) if ev[2] == "P" else n, T, S, [(11, cid), (55, "X")], extra_header=extra)
     if k == "hb":
         return refs.frame("0", n, T, S)
     if k == "tr":
@@ -148,7 +150,7 @@ class Sim:
         ctxs = f"{rel(n, E)}:{st}"
         # 1. delivery only at the expected number, only the frame itself, once
         for (t, s, _b) in new:
-            if kind != "app" or str(s) != str(n) or len(new) > 1:
+            if kind != "app" or int(s) != n or len(new) > 1:
                 return self._v("delivered_foreign", f"{kind}:{ctxs}", "the application callback receives a message only when its MsgSeqNum is exactly the next expected inbound number", ev, det)
             if n != E:
                 return self._v("delivered_not_expected", f"app_pd{ev[2]}:{ctxs}", "the application callback receives a message only when its MsgSeqNum is exactly the next expected inbound number", ev, det)
